@@ -48,6 +48,28 @@ CLAIMS = {
  'C13': dict(technique='TLC trace validation of the same generic-coefficient cases under all 16 option vectors against one reference value; graded-mode structural clause (complete grades) evaluated by TLC with AlgebraModel!IndicesForGrades',
              text='The option vector {cse} x {graded} x {symbol class} x {wrapper} (+ pretty printing) is in the trace header and ignored by the reference; identical grade-block cases are replayed under all vectors and validated against the same value, so results coincide; graded mode: total operators must not raise and results store complete grades in canonical order. Known findings F5a/F5b (graded + degenerate metric).',
              note=TB + 'd = 2, 3, 4; 31 operators; wrapper = marking decorator.', ref='6 C13'),
+
+ 'C14': dict(technique='TLC model checking of AlgebraModel!RelabelIsIsomorphism on every enumerated configuration + TLC trace validation of relabel events (custom vs default-basis algebra), intrinsic reference for custom configurations, and mix events (rejection clause)',
+             text='TLC checks that the map sending each named blade of a custom basis to (sorting parity) x the ascending blade of the default basis is an algebra isomorphism for every enumerated configuration; every operator is run in the custom algebra and, on relabelled operands, in the default algebra and TLC checks Phi(result) = result (duals up to the orientation of the custom pseudoscalar, C05); the same events are validated against the intrinsic reference; operands from algebras whose metric or basis differ must raise.',
+             note=TB + 'All custom bases d=2 x 3 start indices, sampled d=3..5, 2DPGA/3DPGA/STAP; 28 operators; 17 configurations pairwise for rejection; algebras differing only in start index are not constrained (the repository tests treat them as equal). asmatrix under custom bases: C18.', ref='6 C14'),
+ 'C15': dict(technique='TLC trace validation against ConstructModel (contract of every construction form and accessor; spelling parity from AlgebraModel, model-checked against the Clifford reference)',
+             text='One algebra instance per configuration builds multivectors through 11 valid and 4 inconsistent construction forms and reads each back with every spelling (all permutations up to grade 3), items, containment, grade, asfullmv (both layouts), map and filter; TLC validates every event against the contract: denotation = sum parity x coefficient, nothing dropped or negated, inconsistent input raises.',
+             note=TB + 'Coefficients are distinct signed primes; default and custom bases d<=5(6), graded mode.', ref='6 C15'),
+ 'C16': dict(technique='TLC trace validation against BroadcastModel: lane-wise operator semantics, frame condition of getitem/setitem on addressed positions, operand-kind resolution with order kept',
+             text='Array-valued operands (ndarray / list / tuple containers, broadcastable shapes) are validated lane by lane against the reference operator (lane pairing = numpy broadcast of position labels); x[idx] and x[idx] = v are validated entry by entry (exactly the addressed entries change); numbers, numpy scalars, lists, tuples and nested callables on either side of every infix and reflected operator are validated element by element with non-commuting operands. Known finding F10.',
+             note=TB + 'Integer-valued arrays, rank <= 2; views shared between different multivectors are not asserted.', ref='6 C16'),
+ 'C17': dict(technique='TLC model checking of PolynomialModel (transcribed compare/add/mul explored as a state machine: homomorphism, WellFormed preservation, exact zero tests) + TLC trace validation of every explored transition and of random walks on the real Polynomial/RationalPolynomial objects',
+             text='The transcription of kingdon\'s polynomial algorithms is explored by TLC over reachable pairs of representations; invariants: operators are homomorphisms for the denotation in the fraction field, preserve the representation invariant, zero tests exact. Every state of the exploration is replayed into the real classes and, with random walks (pow of both signs, inv, /, numbers), validated by TLC on denotations (result, bool, == 0, ==, tosympy, operands unchanged, zero test of the difference with the canonical form).',
+             note=TB + 'Variables a < a1 < b (< c < x12), coefficients ints and dyadic floats; operands of one class; representation equality is model drift only.', ref='6 C17'),
+ 'C18': dict(technique='TLC trace validation against MatrixModel: homomorphism on all basis-blade pairs of the recorded matrices, first column, linearity, frommatrix; expr_as_matrix as polynomial identities A.x = y and y = Sem(expression)',
+             text='For every configuration the matrices of all basis blades are recorded; TLC multiplies them (sparse) and compares with sign x matrix of the product blade for all pairs, checks identity, first column = canonical coefficient vector, linearity and frommatrix on random multivectors; expr_as_matrix results for 13 linear expressions with symbolic / numeric / array-valued inputs and res_like are checked as polynomial identities. Known findings F6b (custom bases), F6c (d=0).',
+             note=TB + 'All signature orderings d<=3, sampled d=4,5; several algebras per process.', ref='6 C18'),
+ 'C19': dict(technique='TLC trace validation: exact clauses on generic coefficients (outer series, integer powers); certificates verified by TLC for sqrt / x**0.5 / norm / normalized (r*r = x on nearest fractions) and exp (integer evaluation of the truncated series with remainder bound)',
+             text='outerexp/outersin/outercos/outertan and integer powers are decided exactly on formal indeterminates; sqrt, x**0.5, norm, normalized on squares of Study numbers / rational-norm operands by TLC-verified identities on the nearest small-denominator fractions of the float results; exp of simple elements on a grid by evaluating N! g^N sum x^k/k! in integer arithmetic within the remainder bound, for positive/zero/negative squares and float, Fraction, numpy, sympy values. Known findings F9a/F9b (numpy arrays).',
+             note=TB + 'Weakest fit of the technique: irrational clauses are decided to a stated tolerance on certificates; complex coefficients are not exercised.', ref='6 C19'),
+ 'C20': dict(technique='TLC trace validation against GraphModel: the widget as a state machine (create/drag/update); front-end decoding (toElement) and the drag frame condition are defined in TLA+',
+             text='Random subject trees (colour ints, strings, multivectors of 8 storage kinds, array-valued, lists, tuples, callables) are given to the real GraphWidget; after creation and each drag/update TLC decodes the payload by the front-end rules and compares it with every reachable multivector, checks signature/Cayley/key2idx against AlgebraModel, and that a drag overwrote exactly the addressed coefficients and callables were re-evaluated.',
+             note=TB + 'Only the transport (bytes -> Float64Array) is emulated in python; default-basis algebras d<=4; small integer coefficients.', ref='6 C20'),
 }
 checks = []
 for p in props:
